@@ -35,10 +35,10 @@ def run(ctx):
             inputs.append((xzgen.mutate(rng, f)[0], 'xz')); inputs.append((f[:rng.randrange(len(f))], 'xz'))
             data = xzgen.gen_data(rng, rng.randrange(0, 2000))
             al = lzma.compress(data, format=lzma.FORMAT_ALONE, filters=[{'id': lzma.FILTER_LZMA1, 'dict_size': 4096}])
-            inputs.append((al, 'lzma')); inputs.append((xzgen.mutate(rng, al)[0], 'lzma'))
+            inputs.append((al, 'lzma')); inputs.append((xzgen.mutate(rng, al)[0], 'lzma')); inputs.append((al + rng.choice([b'\0', b'trailing garbage', al]), 'lzma'))
             lz = lz_member(rng, data); inputs.append((lz, 'lz')); inputs.append((lz + lz_member(rng, data[:50]) + b'trailing', 'lz'))
         # the decoder xz itself selects for each format (coder.c): .lz -> lzma_lzip_decoder, else auto/stream/alone; always CONCATENATED
-        lib = [None] * len(inputs)
+        lib = [None] * len(inputs); single = {}
         for kind, fm in ((2, ('xz', 'lzma')), (4, ('lz',))):
             idxs = [i for i, (_b, f_) in enumerate(inputs) if f_ in fm]
             res_, lf = impl_dec(drv, kind, LZMA_CONCATENATED, 0, 0, [inputs[i][0] for i in idxs])
@@ -56,6 +56,7 @@ def run(ctx):
             if fmt == 'lzma': runs.append(('lzmadec', [lzmadec, p]))
             for name, cmd in runs:
                 r = sh(cmd); n_eval += 1
+                if name == 'xz -dc': single[i] = (r.stdout, r.returncode, p, fmt)
                 if name == 'lzmadec':
                     a_ = alone.get(i)
                     if a_ is None: continue
@@ -84,7 +85,23 @@ def run(ctx):
                     viol.append(dict(why='%s wrote %d bytes, the library decodes %d bytes (or different content)' % (name, len(r.stdout), len(out)), file=blob.hex()))
                 elif not ok_lib and name != 'xz -dc -T4' and not (out.startswith(r.stdout) or r.stdout.startswith(out)):
                     viol.append(dict(why='%s output before the error is not what the library decoded' % name, file=blob.hex()))
-            os.remove(p)
+        # ---------- several files in one run: every file is judged as if it were alone (no state may leak from one file to the next)
+        keys = sorted(single)
+        for _ in range(60 if ctx.quick() else 1500):
+            pick = [rng.choice(keys) for _k in range(rng.choice([2, 2, 3]))]
+            if rng.random() < 0.4:   # a file of one format right after a file of another one
+                fa, fb = rng.sample(['xz', 'lzma', 'lz'], 2)
+                ka = [i for i in keys if single[i][3] == fa]; kb = [i for i in keys if single[i][3] == fb]
+                if ka and kb: pick = [rng.choice(ka), rng.choice(kb)]
+            exp_out = b''.join(single[i][0] for i in pick); rcs = [single[i][1] for i in pick]
+            exp_rc = 1 if 1 in rcs else (2 if 2 in rcs else 0)
+            for extra in ([], ['-T4']):
+                r = sh([xz, '-dc'] + extra + [single[i][2] for i in pick]); n_eval += 1
+                if r.returncode != exp_rc or (r.stdout != exp_out and not extra):
+                    viol.append(dict(why='xz -dc %s on %s in one run: exit %d / %d bytes, but judged one at a time: exit %d / %d bytes' % (' '.join(extra), '+'.join(single[i][3] for i in pick), r.returncode, len(r.stdout), exp_rc, len(exp_out)),
+                                     file=b''.join(open(single[i][2], 'rb').read() for i in pick).hex(), files=[open(single[i][2], 'rb').read().hex() for i in pick]))
+            distinct.add(('multi', tuple(single[i][3] for i in pick), exp_rc))
+        for i in keys: os.remove(single[i][2])
         # ---------- sparse files: zero runs around the block size, every sink
         plains = []
         for lead in (0, 1, B - 1, B, B + 1, 3 * B):
